@@ -7,6 +7,7 @@ package meta
 //@ pure contains(fs []string, f string) bool = exists k int :: 0 <= k && k < len(fs) && fs[k] == f
 
 //@ func ContainsFinalizer
+//@   params finalizers, finalizer
 //@   tags C13
 //@   loop 1 invariant -1 <= rangeindex && rangeindex < len(finalizers)
 //@   loop 1 invariant forall k int :: 0 <= k && k <= rangeindex ==> finalizers[k] != finalizer
@@ -14,6 +15,7 @@ package meta
 
 // RemoveFinalizer removes exactly the given finalizer and keeps the others (and their order).
 //@ func RemoveFinalizer
+//@   params finalizers, finalizer
 //@   tags C13
 //@   loop 1 invariant -1 <= rangeindex && rangeindex < len(finalizers)
 //@   loop 1 invariant forall k int :: 0 <= k && k < len(newFinalizers) ==> newFinalizers[k] != finalizer && contains(finalizers, newFinalizers[k])
@@ -25,6 +27,7 @@ package meta
 
 // union of the two lists: everything of the first, then what the second adds (C13, C16)
 //@ func MergeFinalizers
+//@   params finalizers1, finalizers2
 //@   tags C13, C16
 //@   fresh result
 //@   loop 1 invariant -1 <= rangeindex && rangeindex < len(finalizers2)
